@@ -6,12 +6,25 @@ functional_args  a TABLE of argument recipes for every name in deepali.core.func
                  deepali.losses.functional.__all__ (completeness is checked in selftest()).  Every tensor
                  argument (recursively in lists/tuples/dicts) is cloned before the call, compared bit-wise
                  (NaN-aware) after the call, and once more after the harness has modified the RESULT in place.
+                 Tensor CONTENT is a case dimension of its own (`contents`, one entry per argument slot): generic
+                 hash noise, or a special content that turns (a step of) the operation into a no-op so that the
+                 value-dependent shortcut branches are taken - range exactly [0,1] / [c,c+1] / [-0.5,0.5], constant,
+                 zeros, ones, binary, integer-valued floats, empty / full masks, zero or constant displacement,
+                 identity matrices, the sampling grid's own coordinates (see special_array()); plus recipes with
+                 scalar arguments that make a step a no-op (intensity window of width 1, side_length=1, sigma=0,
+                 padding value 0, ...).
 accessors        every with-argument accessor ("returns a new object with X changed") of Grid, Cube, Image,
                  ImageBatch, FlowField(s) and of every transform class leaves the receiver's structural and
-                 behavioural fingerprint unchanged.
+                 behavioural fingerprint unchanged.  The structural fingerprint of a module contains everything
+                 torch.nn.Module serialises or consults: state_dict() keys and values, persistent flags /
+                 `_non_persistent_buffers_set` of every sub-module, training flags, all hook dictionaries.  Receivers
+                 are exercised fresh, after update() and after __call__() (non-persistent buffers u / v / p exist);
+                 data receivers with every special content, transforms also with identity parameters.
 copies           histories over {copy.copy, copy.deepcopy, clone(), pickle} x {modify original, modify copy}
-                 x {in place on tensors, `_` setters, data_}: deep copies are independent in both directions,
-                 shallow copies share tensors but not attribute / buffer / module containers.
+                 x {in place on tensors, `_` setters, data_, condition_, remove_update_hook, train flag} with
+                 evaluations (update() / __call__) of either side in between: deep copies are independent in both
+                 directions, shallow copies share tensors but not attribute / buffer / module containers nor the
+                 persistence bookkeeping of buffers.
 
 Aliasing policy of the functional facet (per recipe, column `policy` of the table):
 
@@ -51,15 +64,20 @@ MANIFEST = {
     "text": "Generated-input search (Hypothesis) plus complete enumeration of a recipe table that covers every public "
             "function of deepali.core.functional and deepali.losses.functional (completeness against both __all__ lists is "
             "a self-test, exit 2 if a function has no recipe): every tensor argument, in contiguous / expanded / strided / "
-            "offset / transposed memory layouts and float32/float64/integer dtypes, is compared bit-wise (NaN-aware) with a "
+            "offset / transposed memory layouts and float32/float64/integer dtypes, with generic content and with special "
+            "contents that make a step of the operation a no-op (unit / offset-unit / centred range, constant, zeros, ones, "
+            "binary, integer-valued, empty and full masks, zero displacement, identity matrices and coordinates; scalar options "
+            "such as a unit-width intensity window or side_length=1), is compared bit-wise (NaN-aware) with a "
             "clone taken before the call, again after the harness has modified the result in place (exposes returned "
             "aliases where a new tensor is promised); explicit in-place variants must modify exactly their target. "
             "Every with-argument accessor of Grid, Cube, Image, ImageBatch, FlowField(s) and of all transform classes "
-            "(Parameter / buffer / callable parameters, before and after update()) must leave the receiver's structural "
-            "fingerprint (tensor values and identities, parameter/buffer/module names, grid, conditioning, nested flags) "
-            "and its behaviour on probe points unchanged. Histories of copy.copy / deepcopy / clone / pickle and "
-            "modifications of either side check that deep copies are independent in both directions and that shallow "
-            "copies do not share attribute, buffer or module containers. Exploration: no proof of absence.",
+            "(Parameter / buffer / callable parameters; fresh, after update() and after __call__()) must leave the receiver's "
+            "structural fingerprint (tensor values and identities, parameter/buffer/module names, grid, conditioning, nested "
+            "flags, state_dict() keys and values, persistent flags and _non_persistent_buffers_set, training flags, hook "
+            "dictionaries) and its behaviour on probe points unchanged. Histories of copy.copy / deepcopy / clone / pickle, "
+            "modifications and evaluations of either side check that deep copies are independent in both directions and that "
+            "shallow copies do not share attribute, buffer or module containers nor buffer persistence bookkeeping. "
+            "Exploration: no proof of absence.",
     "note": "Trusted: torch.equal / clone, Python object identity, the fingerprint routine in props/c15.py. Undocumented "
             "pass-through returns in no-op argument forms (crop margin 0, ...) are labelled, not flagged (policy `pass`, "
             "see module docstring). CPU only; shapes <= 8 per axis; a mutation that needs a larger tensor or another "
@@ -72,14 +90,23 @@ ASSUMPTIONS = [
     "(F15 conv with n-D kernel, F25 compose_flows/logv with batch > 1, F6 (N,D,1) translations in as_homogeneous_matrix, "
     "F1/F3 generic Euler orders, K6 ncc_loss mask, F14 region_of_interest in 2-D, F31 copy.copy of flow fields) are not generated",
     "further argument forms not generated because deepali crashes on them (crash defects, not mutations, seen while writing the "
-    "recipes): conv()/conv1d() with a padding mode given as str or a non-zero padding mode in conv1d, tversky_index with a label-map "
-    "target for more than two classes (N16-1) or any weight for a 1-channel prediction (F26), flatten_channels with N > 1 and C > 1, "
+    "recipes): conv() with a padding mode given as str, tversky_index with a label-map "
+    "target for more than two classes (N16-1) or any weight for a 1-channel prediction (F26), "
     "MultiLevelTransform of non-rigid members with more than one group (N06-3), FlowField(s).curl(), Translation.matrix() (F6), "
-    "EulerRotation.matrix(m) in 2-D (N08-2), t.data(tensor) when the parameters are provided by an nn.Module (callable parameters are "
-    "therefore a plain picklable callable), rotation_matrix_to_quaternion of a non-contiguous matrix (N08-4, skipped and counted)",
+    "EulerRotation.matrix(m) in 2-D (N08-2), rotation_matrix_to_quaternion of a non-contiguous matrix (N08-4, skipped and counted); "
+    "callable parameters are a plain picklable callable, not an nn.Module",
     "aliasing policy: undocumented pass-through returns in no-op forms are labelled (alias_undocumented:<fn>), not flagged",
     "shallow copies of transforms: sharing of parameter tensors is asserted; whether replacing a parameter (data_) on one "
     "side is seen by the other is documented as shared-container behaviour and is not asserted either way",
+    "SpatialTransform.__copy__ documents that shallow copies share the containers of parameters AND hooks: that "
+    "remove_update_hook() on a shallow copy also removes the hook of the original is therefore not flagged (it is asserted "
+    "for deep copies, and no accessor may change the hooks of its receiver)",
+    "special contents are exact dyadic values (k/64, c in {2, -3, 0.5, -0.25, ...}); a shortcut that needs another exact "
+    "value (e.g. a range of exactly 255) is only reached through the scalar-argument recipes",
+    "in-place variants called with a special content may legitimately be value no-ops: `inplace_not_applied` is only "
+    "asserted for generic content",
+    "a transform with callable parameters whose grid was replaced by grid_() is not evaluated afterwards in the copies "
+    "facet (the callable still returns parameters of the old shape; deepali raises ValueError, which is correct)",
 ]
 
 STRICT_ALIAS = os.environ.get("VERIF_C15_STRICT_ALIAS", "") == "1"
@@ -121,11 +148,161 @@ def layout_tensor(shape, key, lo, hi, dtype, layout, quant=False):
     return t, t
 
 
+# ---------------------------------------------------------------------------------------
+# content dimension: besides generic hash noise, "special" contents that make (a step of) an operation a no-op, so
+# that value-dependent shortcut branches (scale == 1, shift == 0, degenerate range, empty mask, identity map, ...)
+# are taken.  All special values are dyadic rationals, hence exact in float32 and float64.
+
+CONTENTS = ["noise", "unit", "unit_offset", "center", "const", "zeros", "ones", "binary", "intvals", "identity"]
+SPECIAL_CONTENTS = CONTENTS[1:]
+_FLOATS = (torch.float32, torch.float64)
+
+
+def _unit_array(shape, key):
+    """Values k/64 in [0, 1] whose minimum is exactly 0 and whose maximum is exactly 1."""
+    a = np.floor(hash_noise(shape, key, 0.0, 1.0) * 64.0) / 64.0
+    f = a.reshape(-1)
+    i, j = int(f.argmin()), int(f.argmax())
+    if i == j:
+        i, j = 0, f.size - 1
+    f[i], f[j] = 0.0, 1.0
+    return f.reshape(shape)
+
+
+def special_array(role, content, shape, key, dtype, D=None):
+    """float64 array of the special `content` for an argument of kind `role`, or None when this content is not
+    meaningful for the role / dtype (the caller then falls back to generic noise).
+
+    role img     unit: range exactly [0, 1]; unit_offset: range exactly [c, c + 1], c != 0; center: [-0.5, 0.5];
+                 const: constant c not in {0, 1}; zeros; ones; binary: {0, 1} with both values present;
+                 intvals: integer valued floats
+         flow    zeros / identity: zero displacement; const: constant displacement; intvals: whole-voxel like values
+         mask    zeros: empty mask; ones: full mask
+         labels  zeros: one class only
+         coords  identity: the normalised coordinates of the sampling grid itself (align_corners=True); zeros; const
+         hom     identity: identity matrices / zero translation; zeros
+         pts     zeros; const: all points coincide
+    """
+    shape = tuple(int(n) for n in shape)
+    n = int(np.prod(shape)) if shape else 1
+    isf = dtype in _FLOATS
+    isb = dtype == torch.bool
+    if n < 2 or not shape:
+        return None
+    if role == "img":
+        if content == "zeros":
+            return np.zeros(shape)
+        if content == "ones":
+            return np.ones(shape)
+        if isb:
+            return None
+        if content == "binary":
+            b = (hash_noise(shape, key, 0.0, 1.0) >= 0.5).astype(np.float64).reshape(-1)
+            b[0], b[-1] = 0.0, 1.0
+            return b.reshape(shape)
+        if content == "const":
+            return np.full(shape, [2.0, -1.5, 0.25, 3.0][key % 4] if isf else 3.0)
+        if not isf:
+            return None
+        if content == "unit":
+            return _unit_array(shape, key)
+        if content == "unit_offset":
+            return _unit_array(shape, key) + [2.0, -3.0, 0.5, -0.25][key % 4]
+        if content == "center":
+            return _unit_array(shape, key) - 0.5
+        if content == "intvals":
+            return np.floor(hash_noise(shape, key, 0.0, 5.0)) - 1.0
+        return None
+    if role == "flow":
+        if not isf:
+            return None
+        if content in ("zeros", "identity"):
+            return np.zeros(shape)
+        if content == "const":
+            return np.full(shape, [0.125, -0.0625, 0.25][key % 3])
+        if content == "intvals":
+            return np.floor(hash_noise(shape, key, 0.0, 3.0)) - 1.0
+        return None
+    if role == "mask":
+        if content == "zeros":
+            return np.zeros(shape)
+        if content == "ones":
+            return np.ones(shape)
+        return None
+    if role == "labels":
+        if content == "zeros":
+            return np.zeros(shape)
+        return None
+    if role == "coords":
+        if not isf:
+            return None
+        if content == "zeros":
+            return np.zeros(shape)
+        if content == "const":
+            return np.full(shape, 0.25)
+        if content == "identity" and D is not None and len(shape) == D + 2 and shape[-1] == D:
+            a = np.zeros(shape)
+            for ax in range(D):  # tensor axis 1 + ax (..., X) holds coordinate component D - 1 - ax
+                m = shape[1 + ax]
+                line = np.linspace(-1.0, 1.0, m) if m > 1 else np.zeros(1)
+                sh = [1] * (D + 1)
+                sh[1 + ax] = m
+                a[..., D - 1 - ax] = line.reshape(sh)
+            return a
+        return None
+    if role == "hom":
+        if not isf:
+            return None
+        if content == "zeros":
+            return np.zeros(shape)
+        if content == "identity":
+            if len(shape) == 1:
+                return np.zeros(shape)
+            a = np.zeros(shape)
+            for i in range(min(shape[-2], shape[-1])):
+                a[..., i, i] = 1.0
+            return a
+        return None
+    if role == "pts":
+        if not isf:
+            return None
+        if content == "zeros":
+            return np.zeros(shape)
+        if content == "const":
+            return np.full(shape, 0.25)
+        return None
+    return None
+
+
+def embed_layout(arr, shape, key, dtype, layout):
+    """(tensor, base) with exactly the values of `arr` (shape `shape`, or leading 1 for layout expand) in the
+    requested memory layout; gaps of the base storage are filled with generic noise."""
+    shape = tuple(int(n) for n in shape)
+    t = torch.tensor(arr, dtype=dtype)
+    if layout == "expand" and tuple(t.shape) != shape:
+        return t.expand(shape), t
+    if layout == "stride" and len(shape) >= 1 and shape[-1] >= 1:
+        base = _content(shape[:-1] + (2 * shape[-1],), key + 1, 0.0, 1.0, dtype)
+        base[..., ::2] = t
+        return base[..., ::2], base
+    if layout == "offset" and len(shape) >= 1:
+        base = _content((t.numel() + 3,), key + 1, 0.0, 1.0, dtype)
+        base[3:] = t.reshape(-1)
+        return base[3:].view(shape), base
+    if layout == "transposed" and len(shape) >= 2:
+        base = t.transpose(-1, -2).contiguous()
+        return base.transpose(-1, -2), base
+    return t, t
+
+
 class Ctx:
     """Per-case argument factory handed to the recipes."""
 
     def __init__(self, case):
         self.case = case
+        self.contents = list(case.get("contents") or ["noise"])
+        self.content_allowed = None  # restriction of special contents set by the recipe (None: all)
+        self.special = []  # special contents actually used
         self.D = int(case["D"])
         self.N = int(case["N"])
         self.C = int(case["C"])
@@ -148,9 +325,27 @@ class Ctx:
             lay = "stride"
         return lay
 
-    def ten(self, slot, shape, lo=0.0, hi=1.0, dtype=None, layout=None, quant=False):
+    def content(self, slot):
+        c = self.contents[slot % len(self.contents)]
+        if c != "noise" and self.content_allowed is not None and c not in self.content_allowed:
+            c = "noise"
+        return c
+
+    def ten(self, slot, shape, lo=0.0, hi=1.0, dtype=None, layout=None, quant=False, role=None):
         dtype = self.dt if dtype is None else dtype
         lay = self.layout(slot) if layout is None else layout
+        content = self.content(slot) if role is not None else "noise"
+        if content != "noise":
+            shape = tuple(int(n) for n in shape)
+            ashape = (1,) + shape[1:] if lay == "expand" and len(shape) >= 1 and shape[0] > 1 else shape
+            arr = special_array(role, content, ashape, self.key * 16 + slot, dtype, self.D)
+            if arr is not None:
+                t, base = embed_layout(arr, shape, self.key * 16 + slot, dtype, lay)
+                if base is not t:
+                    self.views += 1
+                self.bases.append((t, base))
+                self.special.append(content)
+                return t
         t, base = layout_tensor(shape, self.key * 16 + slot, lo, hi, dtype, lay, quant)
         if base is not t:
             self.views += 1
@@ -161,24 +356,24 @@ class Ctx:
     def img(self, slot, C=None, N=None, lo=0.0, hi=1.0, dtype=None, layout=None):
         N = self.N if N is None else N
         C = self.C if C is None else C
-        return self.ten(slot, (N, C) + self.shape, lo, hi, dtype, layout)
+        return self.ten(slot, (N, C) + self.shape, lo, hi, dtype, layout, role="img")
 
     def flow(self, slot, N=None, amp=0.2, dtype=None, layout=None):
         N = self.N if N is None else N
-        return self.ten(slot, (N, self.D) + self.shape, -amp, amp, dtype, layout)
+        return self.ten(slot, (N, self.D) + self.shape, -amp, amp, dtype, layout, role="flow")
 
     def mask(self, slot, C=1, N=None, dtype=None, layout=None):
         N = self.N if N is None else N
-        return self.ten(slot, (N, C) + self.shape, 0.0, 2.0, dtype, layout, quant=True)
+        return self.ten(slot, (N, C) + self.shape, 0.0, 2.0, dtype, layout, quant=True, role="mask")
 
     def coords(self, slot, lead=None, N=None, dtype=None, layout=None, r=0.9):
         N = self.N if N is None else N
         lead = self.shape if lead is None else tuple(lead)
-        return self.ten(slot, (N,) + lead + (self.D,), -r, r, dtype, layout)
+        return self.ten(slot, (N,) + lead + (self.D,), -r, r, dtype, layout, role="coords")
 
     def labels(self, slot, K, C=1, N=None, layout=None):
         N = self.N if N is None else N
-        return self.ten(slot, (N, C) + self.shape, 0.0, float(K), torch.int64, layout)
+        return self.ten(slot, (N, C) + self.shape, 0.0, float(K), torch.int64, layout, role="labels")
 
     def gen(self):
         g = torch.Generator()
@@ -305,7 +500,7 @@ class R:
     """One argument recipe: build(X) -> (args, kwargs)."""
 
     def __init__(self, tag, build, policy="fresh", inplace=None, layouts=None, dims=(2, 3), no_expand=False,
-                 nmax=2, doc="", skip_on=None):
+                 nmax=2, doc="", skip_on=None, contents=None):
         self.tag = tag
         self.build = build
         self.policy = policy  # fresh | ref | pass
@@ -316,6 +511,7 @@ class R:
         self.nmax = nmax
         self.doc = doc
         self.skip_on = skip_on  # (ExceptionType, substring, finding id): known crash of another property
+        self.contents = contents  # None: every special content may be used; tuple: only these (() = generic noise only)
 
 
 class SKIP:
@@ -332,9 +528,9 @@ def _hom(X, slot, kind="hom", N=None):
     N = X.N if N is None else N
     D = X.D
     if kind == "vec":
-        return X.ten(slot, (D,), -0.3, 0.3)
+        return X.ten(slot, (D,), -0.3, 0.3, role="hom")
     cols = D + 1 if kind == "hom" else D
-    t = X.ten(slot, (N, D, cols), -0.2, 0.2)
+    t = X.ten(slot, (N, D, cols), -0.2, 0.2, role="hom")
     # near-identity content without touching the layout: add eye through an out-of-place op is not possible
     # (it would lose the layout), so the noise itself is used - all functions accept arbitrary matrices.
     return t
@@ -342,6 +538,9 @@ def _hom(X, slot, kind="hom", N=None):
 
 def _rotm(X, slot, n=None, hom=False):
     m = X.rot(n)
+    if X.content(slot) == "identity":
+        m = np.stack([np.eye(X.D)] * m.shape[0])
+        X.special.append("identity")
     if hom:
         m = np.concatenate([m, np.zeros(m.shape[:-1] + (1,))], axis=-1)
     t = torch.tensor(m, dtype=X.dt)
@@ -365,7 +564,7 @@ def _rotm(X, slot, n=None, hom=False):
 
 def _pts(X, slot, M=5, N=None, d=None):
     N = X.N if N is None else N
-    return X.ten(slot, (N, M, X.D if d is None else d), -0.9, 0.9)
+    return X.ten(slot, (N, M, X.D if d is None else d), -0.9, 0.9, role="pts")
 
 
 DERIV_MODES = [None, "central", "forward", "bspline", "gaussian", "sobel"]
@@ -655,6 +854,7 @@ CORE["conv"] = [
 ]
 CORE["conv1d"] = [
     R("last", lambda X: ((X.img(0), _k1(X, 1, 3)), {"padding": _pm([None, "zeros", 1, "none"][X.v % 4])})),
+    R("pad_modes", lambda X: ((X.img(0), _k1(X, 1, 3)), {"padding": [_pm("replicate"), "reflect", _pm("constant"), "replicate"][X.v % 4], "dim": [-1, 2][X.v % 2]})),
     R("dim2", lambda X: ((X.img(0), _k1(X, 1, 1 + 2 * (X.v % 2))), {"dim": 2})),
     R("int_data", lambda X: ((X.img(0, hi=50, dtype=torch.int16), _k1(X, 1, 3, torch.float32)), {})),
     R("dtype", lambda X: ((X.img(0, hi=50), _k1(X, 1, 3)), {"dtype": [torch.int32, torch.float64, torch.float32][X.v % 3]})),
@@ -684,14 +884,26 @@ for _n, _cl in (("denormalize_flow", False), ("normalize_flow", False)):
         R("flow", lambda X: ((X.flow(0, amp=2),), {"align_corners": X.v % 2 == 0, "side_length": [2, 1][X.v // 2 % 2]})),
         R("channels_last", lambda X: ((X.coords(0),), {"size": torch.Size(X.size), "channels_last": True})),
         R("size_tensor", lambda X: ((X.coords(0, lead=(5,)),), {"size": X.ten(1, (X.D,), 2, 9, torch.int64), "channels_last": True})),
+        # size tensor of the same dtype as the data: torch.as_tensor() hands the argument itself through
+        R("size_tensor_same_dtype", lambda X: ((X.coords(0, lead=(5,)),), {"size": X.ten(1, (X.D,), 2, 9, quant=True), "channels_last": True,
+                                                                            "align_corners": X.v % 2 == 0, "side_length": [2, 1][X.v // 2 % 2]})),
+        R("size_tensor_with_one", lambda X: ((X.coords(0, lead=(5,)),), {"size": torch.tensor([1.0] + [4.0] * (X.D - 1), dtype=X.dt), "channels_last": True,
+                                                                          "align_corners": X.v % 2 == 0})),
     ]
+for _n in ("denormalize_flow", "normalize_flow"):
+    CORE[_n].append(R("side_length_one", lambda X: ((X.flow(0, amp=2),), {"side_length": 1, "align_corners": X.v % 2 == 0})))
+    CORE[_n].append(R("side_length_one_channels_last", lambda X: ((X.coords(0),), {"side_length": 1, "channels_last": True, "size": torch.Size(X.size)})))
 CORE["normalize_flow"].append(R("int", lambda X: ((X.ten(0, (X.N, X.D) + X.shape, -3, 3, torch.int64),), {})))
 for _n in ("denormalize_grid", "normalize_grid"):
     CORE[_n] = [
         R("grid", lambda X: ((X.coords(0),), {"align_corners": X.v % 2 == 0, "side_length": [2, 1][X.v // 2 % 2]})),
         R("size", lambda X: ((X.coords(0, lead=(5,)),), {"size": torch.Size(X.size)})),
         R("size_tensor", lambda X: ((X.coords(0, lead=(5,)),), {"size": X.ten(1, (X.D,), 2, 9, torch.float32)})),
+        R("size_tensor_same_dtype", lambda X: ((X.coords(0, lead=(5,)),), {"size": X.ten(1, (X.D,), 2, 9, quant=True), "align_corners": X.v % 2 == 0,
+                                                                            "side_length": [2, 1][X.v // 2 % 2]})),
     ]
+for _n in ("denormalize_grid", "normalize_grid"):
+    CORE[_n].append(R("side_length_one", lambda X: ((X.coords(0),), {"side_length": 1, "align_corners": X.v % 2 == 0})))
 CORE["normalize_grid"].append(R("channels_first", lambda X: ((X.flow(0, amp=3),), {"channels_last": False})))
 CORE["normalize_grid"].append(R("int", lambda X: ((X.ten(0, (X.N,) + X.shape + (X.D,), 0, 5, torch.int64),), {})))
 for _n in ("dot_batch", "dot_channels"):
@@ -705,6 +917,8 @@ for _n in ("downsample", "upsample"):
         R("neg", lambda X: ((X.img(0), -1), {"sigma": [None, 0.6][X.v % 2]})),
         R("dims", lambda X: ((X.img(0), 1), {"dims": [0], "sigma": 0.7})),
         R("sigma_tensor", lambda X: ((X.img(0), 1), {"sigma": X.ten(1, (X.D,), 0.5, 1.0, torch.float32)})),
+        R("sigma_tensor1_dims", lambda X: ((X.img(0), 1), {"sigma": X.ten(1, (1,), 0.5, 1.0, torch.float32), "dims": [[0], [1], ["x", "y"]][X.v % 3]})),
+        R("sigma_zero_tensor", lambda X: ((X.img(0), 1), {"sigma": torch.zeros(X.D if X.v % 2 else 1)})),
         R("levels2", lambda X: ((X.img(0), 2), {"sigma": [None, 0.7][X.v % 2]}), skip_on=(AssertionError, "", "F19")),
     ]
 CORE["downsample"].append(R("min_size", lambda X: ((X.img(0), 1), {"min_size": max(X.shape)}), policy="fresh"))
@@ -724,7 +938,8 @@ CORE["expv"] = [
     R("steps", lambda X: ((X.flow(0),), {"steps": 1 + X.v % 3, "align_corners": X.v % 2 == 0, "scale": [None, 1.0, -0.5][X.v % 3]})),
     R("default", lambda X: ((X.flow(0),), {})),
 ]
-CORE["flatten_channels"] = [R("data", lambda X: ((X.img(0, N=1),), {}), policy="pass", layouts=("contig", "offset"), nmax=1)]
+CORE["flatten_channels"] = [R("data", lambda X: ((X.img(0),), {}), policy="pass"),
+                            R("single", lambda X: ((X.img(0, N=1),), {}), policy="pass", nmax=1)]
 CORE["finite_differences"] = [
     R("order0", lambda X: ((X.img(0), X.v % X.D), {"order": 0}), policy="ref", doc="'order: If zero, the input data is returned'"),
     R("modes", lambda X: ((X.img(0), X.v % X.D), {"mode": ["forward", "backward", "central", "forward_central_backward"][X.v % 4], "dilation": 1 + X.v // 4 % 2})),
@@ -777,6 +992,8 @@ CORE["grid_sample"] = [
     R("bcast_grid", lambda X: ((X.img(0, N=2), X.coords(1, N=1)), {"padding": 2.0})),
     R("unbatched_grid", lambda X: ((X.img(0), X.ten(1, X.shape + (X.D,), -1, 1)), {"padding": 1.5})),
     R("tensor_pad", lambda X: ((X.img(0), X.coords(1)), {"padding": X.ten(2, (), 1, 2)})),
+    R("pad_value_zero", lambda X: ((X.img(0), X.coords(1, r=1.3)), {"padding": [0.0, 0, False][X.v % 3], "align_corners": X.v % 2 == 0})),
+    R("same_grid", lambda X: ((X.img(0), X.coords(1, r=1.0)), {"padding": [None, 1.0, "border"][X.v % 3], "align_corners": True})),
 ]
 CORE["grid_sample_mask"] = [
     R("float", lambda X: ((X.mask(0), X.coords(1)), {"threshold": 0.5})),
@@ -797,8 +1014,16 @@ CORE["normalize_image"] = [
     R("unit_minmax", lambda X: ((X.img(0, lo=-3, hi=5),), {"min": -1.0, "max": 3.0, "mode": ["unit", "center"][X.v % 2]})),
     R("unit_noop", lambda X: ((X.img(0),), {"min": 0.0, "max": 1.0})),
     R("zscore", lambda X: ((X.img(0, lo=-3, hi=5),), {"mode": "zscore", "min": -2.0, "max": [None, 4.0][X.v % 2]})),
-    R("int", lambda X: ((X.img(0, hi=99, dtype=torch.int16),), {})),
+    R("int", lambda X: ((X.img(0, hi=99, dtype=torch.int16),), {"mode": ["unit", "center"][X.v % 2]})),
+    # intensity window of width exactly 1: the scaling step is a no-op, only the shift (and clamp) remain
+    R("unit_width_window", lambda X: ((X.img(0, lo=-3, hi=5),), {"min": [-0.5, 0.0, 2.0][X.v % 3], "max": [0.5, 1.0, 3.0][X.v % 3],
+                                                                "mode": ["unit", "center"][X.v // 3 % 2]})),
+    R("unit_width_window_kw_false", lambda X: ((X.img(0),), {"min": [-0.5, 0.0, 0.5][X.v % 3], "max": [0.5, 1.0, 1.5][X.v % 3],
+                                                             "mode": ["center", "unit"][X.v // 3 % 2], "inplace": False})),
+    R("zscore_no_clamp_min", lambda X: ((X.img(0, lo=-3, hi=5),), {"mode": "zscore", "max": 4.0})),
     R("inplace", lambda X: ((X.img(0, lo=-3, hi=5),), {"inplace": True, "mode": ["unit", "center", "zscore"][X.v % 3], "min": -1.0}), inplace="args[0]"),
+    R("inplace_unit_width", lambda X: ((X.img(0, lo=-3, hi=5),), {"inplace": True, "mode": ["unit", "center"][X.v % 2], "min": 1.0, "max": 2.0}),
+      inplace="args[0]"),
 ]
 for _n in ("polyline_directions", "polyline_tangents"):
     CORE[_n] = [R("pts", lambda X: ((X.ten(0, (X.N, 5, 3), -1, 1),), {"normalize": X.v % 2 == 0})),
@@ -936,6 +1161,7 @@ LOSS["elasticity_loss"] = [
     R("lame", lambda X: ((X.flow(0),), dict(first_parameter=1.0, second_parameter=0.5, reduction=_red(X), **_dkw(X, bspline=False)))),
     R("rubber", lambda X: ((X.flow(0),), {"material_name": "rubber"})),
     R("mu_only", lambda X: ((X.flow(0),), {"first_parameter": 0.0, "second_parameter": 1.0})),
+    R("lambda_only", lambda X: ((X.flow(0),), dict(first_parameter=1.0, second_parameter=0.0, reduction=_red(X)))),
     R("linear", lambda X: ((_hom(X, 0),), {"first_parameter": 1.0, "second_parameter": 0.5})),
 ]
 LOSS["focal_loss_with_logits"] = [
@@ -1054,6 +1280,7 @@ def run_functional(case):
     X.N = min(X.N, rec.nmax)
     X.allowed = rec.layouts
     X.no_expand = rec.no_expand
+    X.content_allowed = rec.contents
     fn = getattr(_namespaces()[ns], name)
     args, kwargs = rec.build(X)
     snap = Snapshot(args, kwargs, X.bases)
@@ -1070,7 +1297,8 @@ def run_functional(case):
             raise Skip(f"known crash of another property ({so[2]})")
         raise
     labels = [f"D={X.D}", case["dtype"], f"policy={policy}", f"fn={name}"]
-    tag = f"{name}[{rec.tag}]"
+    labels += sorted({f"content={c}" for c in X.special}) or ["content=noise"]
+    tag = f"{name}[{rec.tag}]" + (f" content={sorted(set(X.special))}" if X.special else "")
 
     # 1. the call itself must not modify any argument (except the in-place target)
     target_path = rec.inplace
@@ -1082,7 +1310,7 @@ def run_functional(case):
         rtensors = [r for _, r in walk_tensors(result, "result")]
         if not rtensors or not any(shares_memory(r, target) for r in rtensors):
             raise Violation(f"inplace_result_not_target:{name}", f"{tag}: result does not share memory with the in-place target {target_path}")
-        if same_bits(target, before):
+        if same_bits(target, before) and not X.special:  # with special content the operation may legitimately be a no-op
             raise Violation(f"inplace_not_applied:{name}", f"{tag}: in-place target {target_path} is unchanged although the operation is not a no-op")
         r0 = [r for r in rtensors if shares_memory(r, target)][0]
         if r0.shape == target.shape and not same_bits(r0.to(target.dtype), target):
@@ -1107,7 +1335,7 @@ def run_functional(case):
             raise Violation(f"result_aliases_arg:{name}",
                             f"{tag}: after add_(1) on the result, argument(s) {changed} changed - the returned tensor shares memory with an input")
         labels.append("probed" if probed else "unprobed")
-    nontrivial = bool(snap.items) and (X.views > 0 or bool(aliased) or bool(target_path))
+    nontrivial = bool(snap.items) and (X.views > 0 or bool(aliased) or bool(target_path) or bool(X.special))
     return {"nontrivial": nontrivial, "labels": labels}
 
 
@@ -1122,23 +1350,47 @@ def functional_cases(draw):
         "ns": ns, "fn": name, "recipe": ri, "tag": rec.tag, "D": D, "N": draw(st.integers(1, 2)), "C": draw(st.integers(1, 2)),
         "shape": shape, "dtype": draw(st.sampled_from(["float32", "float32", "float64"])),
         "layouts": draw(st.lists(st.sampled_from(LAYOUTS), min_size=4, max_size=4)),
+        "contents": draw(st.lists(st.sampled_from(["noise"] * 6 + SPECIAL_CONTENTS), min_size=4, max_size=4)),
         "key": draw(st.integers(0, 9999)), "v": draw(st.integers(0, 59)),
     }
 
 
+def _recipe_uses_content(rec, content, D):
+    """Dry build of the arguments: does this recipe create at least one tensor with the special content?"""
+    X = Ctx({"D": D, "N": 2, "C": 2, "shape": _default_shape(D), "dtype": "float32", "layouts": ["contig"], "contents": [content],
+             "key": 17, "v": 0})
+    X.N = min(X.N, rec.nmax)
+    X.content_allowed = rec.contents
+    rec.build(X)
+    return bool(X.special)
+
+
 def enumerate_functional(tier):
     """Every (function, recipe) with fixed small cases: both dimensions, contiguous and one mixed view layout,
-    and all variant numbers 0..5 in the thorough tier."""
+    and all variant numbers 0..5 in the thorough tier; then every (function, recipe, special content) triple for
+    which the recipe has an argument that can take the content (same content in all argument slots)."""
     vs = range(6) if tier == "thorough" else range(2)
     for ns, name, ri in table_entries():
         rec = TABLE[ns][name][ri]
         for D in rec.dims:
-            for v in vs:
+            for v in range(6):  # the recipes select their options with v % 2 ... v % 6
                 for k, lay in enumerate((["contig"] * 4, ["stride", "offset", "transposed", "expand"], ["expand", "stride", "offset", "contig"])):
-                    if tier != "thorough" and k == 2:
+                    if tier != "thorough" and (k == 2 or (v >= 2 and k != v % 2)):
                         continue
                     yield {"ns": ns, "fn": name, "recipe": ri, "tag": rec.tag, "D": D, "N": 2, "C": 2, "shape": _default_shape(D, v),
-                           "dtype": ["float32", "float64"][(v + k) % 2], "layouts": lay, "key": 17 + v, "v": v}
+                           "dtype": ["float32", ["float64", "float32"][v % 2], "float64"][k], "layouts": lay, "key": 17 + v, "v": v}
+    lays = (["contig"] * 4, ["stride", "offset", "transposed", "expand"], ["offset", "transposed", "stride", "contig"])
+    for ns, name, ri in table_entries():
+        rec = TABLE[ns][name][ri]
+        for content in SPECIAL_CONTENTS:
+            if not _recipe_uses_content(rec, content, rec.dims[0]):
+                continue
+            for D in rec.dims:
+                for v in vs:
+                    for k in (range(2) if tier == "thorough" else [v % 2]):
+                        yield {"ns": ns, "fn": name, "recipe": ri, "tag": rec.tag, "D": D, "N": 2, "C": 2, "shape": _default_shape(D, v),
+                               "dtype": ["float32", "float64"][(v // 2 + k) % 2], "layouts": lays[(v + k) % 3 if k else 0],
+                               "contents": [content] * 4, "key": 17 + v, "v": v}
 
 
 # =======================================================================================
@@ -1195,10 +1447,18 @@ def value_fp(v, ids=True, depth=0):
     return ("object", id(v) if ids else 0, type(v).__name__)
 
 
+_HOOK_DICTS = ("_forward_pre_hooks", "_forward_pre_hooks_with_kwargs", "_forward_hooks", "_forward_hooks_with_kwargs",
+               "_forward_hooks_always_called", "_backward_pre_hooks", "_backward_hooks", "_state_dict_hooks", "_state_dict_pre_hooks",
+               "_load_state_dict_pre_hooks", "_load_state_dict_post_hooks")
+
+
 def module_fp(m, ids=True):
-    """Structural fingerprint of a module tree: parameters, buffers, modules (names, identities, values) and the
-    plain attributes of every sub-module (grid, conditioning, flags such as invert / exp.scale / exp.align_corners)."""
-    fp = {"params": {}, "buffers": {}, "modules": {}, "attrs": {}, "hooks": {}}
+    """Structural fingerprint of a module tree: parameters, buffers, modules (names, identities, values), the
+    plain attributes of every sub-module (grid, conditioning, flags such as invert / exp.scale / exp.align_corners, training),
+    and everything torch.nn.Module serialises or consults when it is called: state_dict() keys (in order) and values,
+    the persistent flag of every buffer / the `_non_persistent_buffers_set` of every sub-module, and the hook dictionaries
+    (number of hooks; with ids=True also their handle ids and the identity of the update-hook handle)."""
+    fp = {"params": {}, "buffers": {}, "modules": {}, "attrs": {}, "hooks": {}, "persistent": {}, "nonpersistent_set": {}, "state_dict": {}}
     for n, p in m.named_parameters():
         fp["params"][n] = ("tensor", id(p) if ids else 0, p.detach().clone(), p.requires_grad, type(p).__name__)
     for n, b in m.named_buffers():
@@ -1208,13 +1468,33 @@ def module_fp(m, ids=True):
         for k, v in mod.__dict__.items():
             if k in _TORCH_INTERNAL:
                 continue
+            if k == "training" and isinstance(mod, (torch.nn.ModuleDict, torch.nn.ModuleList)):
+                continue  # flag of a pure container (no forward): CompositeTransform.__copy__ builds a new ModuleDict, not compared
             fp["attrs"][f"{n}.{k}" if n else k] = value_fp(v, ids)
         # raw containers: a parameter slot that holds None is not reported by named_parameters()
         for cont in ("_parameters", "_buffers"):
             for k, v in mod.__dict__.get(cont, {}).items():
                 if v is None:
                     fp["params" if cont == "_parameters" else "buffers"][f"{n}.{k}" if n else k] = ("value", None)
-        fp["hooks"][n] = ("value", len(mod._forward_pre_hooks), len(mod._forward_hooks))
+        nps = mod.__dict__.get("_non_persistent_buffers_set", set())
+        fp["nonpersistent_set"][n] = ("value", tuple(sorted(nps)))
+        for k in mod.__dict__.get("_buffers", {}):
+            fp["persistent"][f"{n}.{k}" if n else k] = ("value", k not in nps)
+        hooks = []
+        for h in _HOOK_DICTS:
+            hd = mod.__dict__.get(h)
+            if hd is not None:
+                hooks.append((h, len(hd)) + ((tuple(hd.keys()) if ids and not isinstance(hd, set) else ()),))
+        handle = mod.__dict__.get("_update_hook_handle", "absent")
+        hooks.append(("update_hook_handle", "absent" if isinstance(handle, str) else "none" if handle is None else ("set", id(handle) if ids else 0)))
+        fp["hooks"][n] = ("value", tuple(hooks))
+    try:
+        sd = m.state_dict()
+    except RecursionError:  # torch recurses for ever when a module has become its own descendant (shared _modules container)
+        sd = {"<cyclic module tree>": None}
+    fp["state_dict"]["keys"] = ("value", tuple(sd.keys()))
+    for k, v in sd.items():
+        fp["state_dict"]["value:" + k] = ("tensor", 0, v.detach().clone()) if isinstance(v, torch.Tensor) else ("value", repr(v))
     return fp
 
 
@@ -1273,7 +1553,11 @@ def diff_category(d):
     p = d.lstrip("/").split(":")[0]
     parts = p.split("/")
     group = parts[0]
+    if group in ("nonpersistent_set", "hooks"):
+        return group
     leaf = parts[1].split(".")[-1] if len(parts) > 1 else ""
+    if group in ("persistent", "state_dict", "modules"):
+        leaf = "".join(c for c in leaf if not c.isdigit())
     if group in ("params", "buffers"):
         leaf = "".join(c for c in leaf if not c.isdigit())
         if leaf in ("params", "p"):
@@ -1313,6 +1597,17 @@ def _param_tensor(shape, key, lo=-0.3, hi=0.3):
     return torch.tensor(hash_noise(tuple(shape), key, lo, hi), dtype=torch.float32)
 
 
+def _identity_params(name, shape, D):
+    """Parameters of the identity map of a parametric transform class (what its reset_parameters() sets)."""
+    if name == "HomogeneousTransform":
+        return torch.eye(D, D + 1).repeat(shape[0], 1, 1)
+    if name == "QuaternionRotation":
+        return torch.tensor([1.0, 0.0, 0.0, 0.0]).repeat(shape[0], 1)
+    if name in ("IsotropicScaling", "AnisotropicScaling"):
+        return torch.ones(tuple(shape), dtype=torch.float32)
+    return torch.zeros(tuple(shape), dtype=torch.float32)
+
+
 def _wrap_params(kind, w):
     if kind == "parameter":
         return torch.nn.Parameter(w)
@@ -1343,6 +1638,7 @@ def build_transform(d, key_offset=0):
     if cls in ("FreeFormDeformation", "StationaryVelocityFreeFormDeformation"):
         ac = True
     grid = build_grid(d, ac=ac)
+    identity = d.get("content", "noise") in ("zeros", "identity")  # parameters of the identity map (zero displacement)
 
     def parametric(name, g, k, **kw):
         shape = (N,) + _data_shape(name, g, **kw)
@@ -1350,6 +1646,8 @@ def build_transform(d, key_offset=0):
         w = _param_tensor(shape, k, lo, hi)
         if name == "HomogeneousTransform":
             w = w + torch.eye(D, D + 1)
+        if identity:
+            w = _identity_params(name, shape, D)
         return getattr(S, name)(g, groups=N, params=_wrap_params(kind, w), **kw)
 
     if cls in LINEAR_PARAMETRIC:
@@ -1369,6 +1667,8 @@ def build_transform(d, key_offset=0):
         for i, member in enumerate(t.transforms()):
             lo, hi = (0.2, 1.0) if type(member).__name__ == "QuaternionRotation" else (-0.25, 0.25)
             w = _param_tensor((N,) + tuple(member.data_shape), key + 7 * i, lo, hi)
+            if identity:
+                w = _identity_params(type(member).__name__, (N,) + tuple(member.data_shape), D)
             member.data_(_wrap_params("parameter" if kind == "callable" else kind, w))
         return t
     if cls == "SequentialTransform":
@@ -1434,16 +1734,22 @@ def build_data(d, key_offset=0):
     shape = tuple(reversed(d["size"]))
     key = int(d["key"]) + key_offset
     dt = tdtype(d.get("dtype", "float32"))
+    content = d.get("content", "noise")
+
+    def values(shp, role, lo, hi):
+        arr = special_array(role, content, shp, key, dt, D) if content != "noise" else None
+        return torch.tensor(hash_noise(shp, key, lo, hi) if arr is None else arr, dtype=dt)
+
     if kind == "Image":
-        return Image(torch.tensor(hash_noise((C,) + shape, key, 0, 1), dtype=dt), grid)
+        return Image(values((C,) + shape, "img", 0, 1), grid)
     if kind == "ImageBatch":
         grids = [grid] + [grid.center([c + 1.0 + i for c in d.get("center", [0.0] * D)]) for i in range(1, N)]
-        return ImageBatch(torch.tensor(hash_noise((N, C) + shape, key, 0, 1), dtype=dt), grids)
+        return ImageBatch(values((N, C) + shape, "img", 0, 1), grids)
     axes = [None, Axes.WORLD, Axes.GRID, Axes.CUBE][int(d.get("v", 0)) % 4]
     if kind == "FlowField":
-        return FlowField(torch.tensor(hash_noise((D,) + shape, key, -0.2, 0.2), dtype=dt), grid, axes)
+        return FlowField(values((D,) + shape, "flow", -0.2, 0.2), grid, axes)
     if kind == "FlowFields":
-        return FlowFields(torch.tensor(hash_noise((N, D) + shape, key, -0.2, 0.2), dtype=dt), grid, axes)
+        return FlowFields(values((N, D) + shape, "flow", -0.2, 0.2), grid, axes)
     raise ValueError(kind)
 
 
@@ -1589,7 +1895,11 @@ def _data_ops(kind):
         "downsample_zero": lambda x, e: x.downsample(0),
         "upsample": lambda x, e: x.upsample(1, sigma=[None, 0.7][e.v % 2]),
         "normalize": lambda x, e: x.normalize(mode=["unit", "center", "zscore"][e.v % 3], min=-0.1),
+        "normalize_data_range": lambda x, e: x.normalize(mode=["unit", "center"][e.v % 2]),
+        "normalize_unit_width": lambda x, e: x.normalize(mode=["unit", "center"][e.v % 2], min=[-0.5, 0.0, 0.25][e.v // 2 % 3], max=[0.5, 1.0, 1.25][e.v // 2 % 3]),
         "rescale": lambda x, e: x.rescale(0, 255, dtype=[None, torch.uint8][e.v % 2]),
+        "rescale_same_range": lambda x, e: x.rescale(),
+        "rescale_unit": lambda x, e: x.rescale(0, 1, data_min=[None, 0.0][e.v % 2], data_max=[None, 1.0][e.v % 2]),
         "narrow": lambda x, e: x.narrow((2 if batch else 1) + e.v % e.D, 1, 2),
         "sample_grid": lambda x, e: x.sample(e.keep(x.grid().resize([n + 1 for n in sp(x)]))),
         "sample_same": lambda x, e: x.sample(e.keep(x.grid())),
@@ -1705,10 +2015,17 @@ def run_accessor(case):
     twin = build_object(d)
     is_t = kind == "transform"
     pre = bool(d.get("pre_update", False)) or op in _READ_OPS
-    if is_t and pre:
+    call = is_t and bool(d.get("pre_call", False))
+    if is_t and (pre or call):
         with torch.no_grad():
-            obj.update()
-            twin.update()
+            if call:  # __call__ runs the update hook and forward(): afterwards all non-persistent buffers exist
+                x = probe_points(d)
+                obj(x)
+                twin(x)
+            else:
+                obj.update()
+                twin.update()
+        pre = True
     env = Env(d)
     before = object_fp(obj)
     try:
@@ -1736,7 +2053,9 @@ def run_accessor(case):
     name = d["cls"] if kind in ("transform", "data") else kind
     labels = [f"recv={name}", f"op={op}", f"D={d['D']}"]
     if is_t:
-        labels += [f"params={d.get('params')}", f"pre_update={pre}"]
+        labels += [f"params={d.get('params')}", f"pre_update={pre}", f"pre_call={call}"]
+    if kind == "data" or (is_t and d.get("content", "noise") != "noise"):
+        labels.append(f"content={d.get('content', 'noise')}")
     if diffs:
         cat = diff_category(diffs[0])
         raise Violation(f"accessor_mutates_receiver:{op}:{cat}",
@@ -1796,6 +2115,7 @@ def _accessor_case(draw, kind, cls, op):
         "params": draw(st.sampled_from(["parameter", "parameter", "buffer", "callable"])), "groups": draw(st.integers(1, 2)),
         "pre_update": draw(st.booleans()), "N": draw(st.integers(1, 2)), "C": draw(st.integers(1, 2)),
         "key": draw(st.integers(0, 9999)), "v": draw(st.integers(0, 59)),
+        "content": draw(st.sampled_from(["noise"] * 4 + SPECIAL_CONTENTS)), "pre_call": draw(st.booleans()),
     }
 
 
@@ -1818,19 +2138,28 @@ def accessor_cases(draw):
     return _accessor_case(draw, kind, cls, op)
 
 
+def _data_contents(cls):
+    role = "img" if cls in ("Image", "ImageBatch") else "flow"
+    return ["noise"] + [c for c in SPECIAL_CONTENTS if special_array(role, c, (2, 3, 3), 0, torch.float32, 2) is not None]
+
+
 def enumerate_accessors(tier):
     """Every (receiver class, accessor) pair with fixed descriptors: both dimensions, all three parameter kinds,
-    with and without a preceding update()."""
+    without / after update() / after __call__(); data receivers with every special content; transforms also with
+    all-zero parameters (identity map)."""
     for kind, cls, op in _all_receiver_ops():
         dims = [3] if cls in ("QuaternionRotation", "RigidQuaternionTransform") else [2, 3] if tier == "thorough" else [2]
         for D in dims:
             kinds = ["parameter", "buffer", "callable"] if kind == "transform" else ["parameter"]
             for pk in kinds:
-                for pre in ([False, True] if kind == "transform" else [False]):
-                    for v in (range(4) if tier == "thorough" else range(1)):
-                        yield {"kind": kind, "cls": cls, "op": op, "D": D, "size": [7, 5, 6][:D], "spacing": [1.0, 0.5, 2.0][:D],
-                               "center": [1.0, -2.0, 0.5][:D], "rot": [0.0, 0.3][v % 2], "ac": v % 4 < 2 or pk == "buffer", "params": pk,
-                               "groups": 1 + v % 2, "pre_update": pre, "N": 2, "C": 2, "key": 5 + v, "v": v}
+                for pre in (["none", "update", "call"] if kind == "transform" else ["none"]):
+                    contents = _data_contents(cls) if kind == "data" else ["noise", "identity"] if kind == "transform" and pre == "update" else ["noise"]
+                    for content in contents:
+                        for v in (range(4) if tier == "thorough" else range(2) if kind == "data" else range(1)):
+                            yield {"kind": kind, "cls": cls, "op": op, "D": D, "size": [7, 5, 6][:D], "spacing": [1.0, 0.5, 2.0][:D],
+                                   "center": [1.0, -2.0, 0.5][:D], "rot": [0.0, 0.3][v % 2], "ac": v % 4 < 2 or pk == "buffer", "params": pk,
+                                   "groups": 1 + v % 2, "pre_update": pre == "update", "pre_call": pre == "call", "N": 2, "C": 2, "key": 5 + v, "v": v,
+                                   "content": content}
 
 
 # =======================================================================================
@@ -1947,6 +2276,12 @@ def _modify(obj, init, how, v):
         if how == "condition_":
             obj.condition_(torch.tensor([delta]))
             return "condition_"
+        if how == "hook":
+            obj.remove_update_hook()
+            return "remove_update_hook"
+        if how == "train":
+            obj.train(not obj.training)
+            return "train_flag"
         g = obj.grid()
         if init["cls"] in ("FreeFormDeformation", "StationaryVelocityFreeFormDeformation"):
             obj.grid_(g.resize([2 * n - 1 for n in g.size()]))
@@ -1961,7 +2296,10 @@ def _own_attrs(fp):
         return fp
     return {"attrs": {k: v for k, v in fp["attrs"].items() if "." not in k and k != "params"},
             "buffer_names": tuple(sorted(k for k in fp["buffers"] if "." not in k)),
-            "module_names": tuple(sorted(fp["modules"]))}
+            "module_names": tuple(sorted(fp["modules"])),
+            "persistent": {k: v for k, v in fp["persistent"].items() if "." not in k},
+            "nonpersistent_set": fp["nonpersistent_set"].get("", ("value", ())),
+            "state_dict_keys": fp["state_dict"]["keys"]}
 
 
 def run_copies(case):
@@ -1969,9 +2307,12 @@ def run_copies(case):
     kind = init["kind"]
     is_t = kind == "transform"
     root = build_object(init)
-    if is_t and init.get("pre_update"):
+    if is_t and (init.get("pre_update") or init.get("pre_call")):
         with torch.no_grad():
-            root.update()
+            if init.get("pre_call"):
+                root(probe_points(init))
+            else:
+                root.update()
     objs = [root]
     group = [0]  # shallow-sharing group of each object
     touched = {0: False}  # group id -> any modification so far
@@ -1979,6 +2320,8 @@ def run_copies(case):
     labels = [f"kind={init['cls'] if kind in ('transform', 'data') else kind}"]
     nmods = ncopies = 0
     directions = set()
+    regridded = set()  # ids of transforms whose grid was replaced by grid_()
+    deferred = []
     for step in steps:
         if step["op"] == "copy":
             i = step["src"] % len(objs)
@@ -1988,6 +2331,8 @@ def run_copies(case):
             if how == "copy" and kind == "data" and init["cls"] in ("FlowField", "FlowFields"):
                 how = "clone"  # copy.copy of flow fields raises (F31, property C19)
             c = _take_copy(objs[i], how)
+            if id(objs[i]) in regridded:
+                regridded.add(id(c))
             ncopies += 1
             labels.append(f"copy={how}")
             # taking a copy changes nothing
@@ -2013,14 +2358,47 @@ def run_copies(case):
                     pa, pb = dict(a.named_parameters()), dict(b.named_parameters())
                     if set(pa) != set(pb) or any(pa[k] is not pb[k] for k in pa):
                         raise Violation("shallow_copy_parameters_not_shared", "copy.copy(transform) does not reference the same parameter tensors")
-                    for cont in ("_buffers", "_modules"):
+                    for cont in ("_buffers", "_non_persistent_buffers_set", "_modules"):
                         if a.__dict__[cont] is b.__dict__[cont]:
-                            raise Violation(f"shallow_copy_shares_container:{cont}", f"copy.copy(transform) shares the {cont} container with the original")
+                            # reported at the end of the history unless an observable consequence is found first
+                            deferred.append(Violation(f"shallow_copy_shares_container:{cont}", f"copy.copy(transform) shares the {cont} container with the original"))
                     if a.__dict__ is b.__dict__:
                         raise Violation("shallow_copy_shares_container:__dict__", "copy.copy(transform) shares the attribute dict")
             objs.append(c)
             group.append(gid)
             recorded.append(object_fp(c))
+        elif step["op"] == "eval":
+            # evaluating one object (update() or __call__) registers / refreshes ITS buffers only
+            if not is_t:
+                continue
+            i = step["obj"] % len(objs)
+            if id(objs[i]) in regridded and init.get("params") == "callable":
+                continue  # the callable still provides parameters of the shape required by the previous grid: not evaluable
+            own_before = [_own_attrs(object_fp(o)) for o in objs]
+            pv = _parameter_values(objs[i])
+            with torch.no_grad():
+                if step.get("call"):
+                    objs[i](probe_points(init))
+                else:
+                    objs[i].update()
+            pv1 = _parameter_values(objs[i])
+            bad = [k for k in pv if k not in pv1 or not same_bits(pv[k], pv1[k])]
+            if bad:
+                raise Violation("evaluation_mutates_parameters", f"evaluating object {i} changed the values of parameter(s) {bad[:4]}")
+            labels.append("eval=call" if step.get("call") else "eval=update")
+            for j, o in enumerate(objs):
+                if j == i:
+                    recorded[j] = object_fp(o)
+                elif group[j] != group[i]:
+                    d = fp_diff(recorded[j], object_fp(o))
+                    if d:
+                        raise Violation("deep_copy_not_independent:evaluate", f"evaluating object {i} changed the independent object {j} at {d[:4]}")
+                else:
+                    d = fp_diff(own_before[j], _own_attrs(object_fp(o)))
+                    if d:
+                        raise Violation("shallow_copy_shares_attributes:evaluate",
+                                        f"evaluating object {i} changed own attributes / buffer names / persistence of its shallow sibling {j} at {d[:4]}")
+                    recorded[j] = object_fp(o)
         else:
             i = step["obj"] % len(objs)
             how, v = step["how"], int(step.get("v", 0))
@@ -2028,10 +2406,12 @@ def run_copies(case):
                 how = "setter"
             if kind == "data" and how not in ("inplace", "setter", "grid_inplace"):
                 how = "inplace"
-            if is_t and how not in ("inplace", "setter", "data_", "condition_"):
+            if is_t and how not in ("inplace", "setter", "data_", "condition_", "hook", "train"):
                 how = "inplace"
             own_before = [_own_attrs(object_fp(o)) for o in objs]
             what = _modify(objs[i], init, how, v)
+            if what == "grid_" and is_t:
+                regridded.add(id(objs[i]))
             nmods += 1
             labels.append(f"mod={what}")
             directions.add("original" if i == 0 else "copy")
@@ -2049,12 +2429,14 @@ def run_copies(case):
                                         f"modifying object {i} ({what}) changed the independent {rel} {j} at {d[:4]}")
                 else:
                     # same shallow group: shared tensors may change, own attributes / container keys must not
-                    if what in ("grid_", "condition_", "setter"):
+                    if what in ("grid_", "condition_", "setter", "train_flag"):
                         d = fp_diff(own_before[j], _own_attrs(object_fp(o)))
                         if d:
                             raise Violation(f"shallow_copy_shares_attributes:{what}",
                                             f"{what} on object {i} changed own attributes / buffer names of its shallow sibling {j} at {d[:4]}")
                     recorded[j] = object_fp(o)
+    if deferred:
+        raise deferred[0]
     # behaviour of objects in groups that were never modified equals that of a fresh twin
     if is_t:
         y0 = behaviour(build_object(init), init)
@@ -2076,11 +2458,14 @@ def copy_cases(draw):
     n = draw(st.integers(2, 7))
     steps = [{"op": "copy", "how": draw(st.sampled_from(COPY_HOW)), "src": 0}]
     for _ in range(n):
-        if draw(st.integers(0, 2)) == 0:
+        k = draw(st.integers(0, 6))
+        if k <= 1:
             steps.append({"op": "copy", "how": draw(st.sampled_from(COPY_HOW)), "src": draw(st.integers(0, 5))})
+        elif k == 2 and kind == "transform":
+            steps.append({"op": "eval", "obj": draw(st.integers(0, 5)), "call": draw(st.booleans())})
         else:
             steps.append({"op": "mod", "obj": draw(st.integers(0, 5)),
-                          "how": draw(st.sampled_from(["inplace", "inplace", "setter", "data_", "grid_inplace", "condition_"])),
+                          "how": draw(st.sampled_from(["inplace", "inplace", "setter", "data_", "grid_inplace", "condition_", "hook", "train"])),
                           "v": draw(st.integers(0, 11))})
     return {"init": init, "steps": steps}
 
@@ -2090,7 +2475,7 @@ def enumerate_copies(tier):
     for kind, cls in _receivers():
         D = 3 if cls in ("QuaternionRotation", "RigidQuaternionTransform") else 2
         mods = {"Grid": ["inplace", "setter"], "Cube": ["inplace", "setter"], "data": ["inplace", "setter", "grid_inplace"],
-                "transform": ["inplace", "setter", "data_", "condition_"]}[kind]
+                "transform": ["inplace", "setter", "data_", "condition_", "hook", "train"]}[kind]
         for pk in ((["parameter", "buffer", "callable"] if tier == "thorough" else ["parameter", "callable"]) if kind == "transform" else ["parameter"]):
             for how in COPY_HOW:
                 for mod in mods:
@@ -2101,6 +2486,11 @@ def enumerate_copies(tier):
                                     "pre_update": (v + side) % 2 == 0, "N": 2, "C": 2, "key": 11 + v, "v": v}
                             yield {"init": init, "steps": [{"op": "copy", "how": how, "src": 0}, {"op": "mod", "obj": side, "how": mod, "v": v},
                                                            {"op": "mod", "obj": 1 - side, "how": mod, "v": v + 1}]}
+                            if kind == "transform":  # same history with evaluations (update() / __call__) of either side in between
+                                init = dict(init, pre_update=False, pre_call=(v + side) % 2 == 0)
+                                yield {"init": init, "steps": [{"op": "copy", "how": how, "src": 0}, {"op": "eval", "obj": 1 - side, "call": side == 0},
+                                                               {"op": "mod", "obj": side, "how": mod, "v": v}, {"op": "eval", "obj": side, "call": side == 1},
+                                                               {"op": "mod", "obj": 1 - side, "how": mod, "v": v + 1}, {"op": "eval", "obj": 0, "call": False}]}
 
 
 # =======================================================================================
@@ -2129,7 +2519,26 @@ def selftest():
     t.exp.align_corners = True
     with torch.no_grad():
         t.params.add_(1)
-    assert [diff_category(x) for x in fp_diff(f0, module_fp(t))] == ["parameters"]
+    assert sorted({diff_category(x) for x in fp_diff(f0, module_fp(t))}) == ["parameters", "state_dict.value"]
+    with torch.no_grad():
+        t.params.sub_(1)
+        t.update()
+    f2 = module_fp(t)
+    assert "u" in t._non_persistent_buffers_set and list(t.state_dict()) == ["params"]
+    t._non_persistent_buffers_set.discard("u")  # planted: buffer u silently becomes persistent
+    cats = {diff_category(x) for x in fp_diff(f2, module_fp(t))}
+    assert {"nonpersistent_set", "persistent.u", "state_dict.keys"} <= cats, cats
+    t._non_persistent_buffers_set.add("u")
+    t.remove_update_hook()
+    assert {diff_category(x) for x in fp_diff(f2, module_fp(t))} == {"hooks"}
+    t.register_update_hook()
+    t.clear_buffers()
+    # special contents are exact
+    a = special_array("img", "unit_offset", (2, 1, 4, 5), 3, torch.float32, 2)
+    b = torch.tensor(a, dtype=torch.float32)
+    assert float(b.max()) - float(b.min()) == 1.0 and float(b.min()) != 0.0
+    v, base = embed_layout(a, a.shape, 3, torch.float32, "stride")
+    assert same_bits(v, b) and base is not v and shares_memory(v, base)
     t2 = _copy.copy(t)
     t2.register_buffer("u", torch.zeros(1))
     f1 = module_fp(t)
@@ -2146,17 +2555,20 @@ FACETS = [
     Facet("functional_args", run_functional, strategy=functional_cases, enumerate=enumerate_functional,
           rule="recipe table over every name of core.functional.__all__ and losses.functional.__all__ (complete enumeration of all "
                "(function, recipe, D) triples with fixed layouts + Hypothesis cases over shapes, dtypes, N, C, variant numbers and the "
-               "memory layouts contiguous / expanded / strided / offset / transposed); non-trivial = the call received at least one "
-               "tensor argument that is a view, or the result aliases an argument, or it is an in-place variant",
-          quick=1000, thorough=20000, shards=16, quick_shards=2),
+               "memory layouts contiguous / expanded / strided / offset / transposed, and per-slot tensor contents noise / unit / "
+               "unit_offset / center / const / zeros / ones / binary / intvals / identity; enumeration of all variant numbers 0..5 and of "
+               "every (function, recipe, special content) triple); non-trivial = the call received at least one "
+               "tensor argument that is a view or has a special content, or the result aliases an argument, or it is an in-place variant",
+          quick=1000, thorough=20000, shards=16, quick_shards=3),
     Facet("accessors", run_accessor, strategy=accessor_cases, enumerate=enumerate_accessors,
           rule="every (receiver class, accessor) pair of Grid, Cube, Image, ImageBatch, FlowField, FlowFields and 23 transform "
-               "configurations, with Parameter / buffer / callable parameters, before and after update(), enumerated and generated "
-               "(grids, sizes, values); non-trivial = accessor with an argument that differs from the current state (not a pure getter)",
+               "configurations, with Parameter / buffer / callable parameters, fresh / after update() / after __call__(), data receivers "
+               "with every special content, transforms with identity parameters, enumerated and generated (grids, sizes, values); non-trivial = accessor with an argument that differs from the current state (not a pure getter)",
           quick=800, thorough=10000, shards=16, quick_shards=2),
     Facet("copies", run_copies, strategy=copy_cases, enumerate=enumerate_copies,
-          rule="histories of up to 8 steps over copy.copy / deepcopy / clone / pickle and modifications (in place on tensors, `_` setters, "
-               "data_, condition_, grid object setters) of any object taken so far; non-trivial = at least one copy, one modification and "
+          rule="histories of up to 8 steps over copy.copy / deepcopy / clone / pickle, modifications (in place on tensors, `_` setters, "
+               "data_, condition_, grid object setters, remove_update_hook, train flag) and evaluations (update / __call__) of any object "
+               "taken so far; non-trivial = at least one copy, one modification and "
                "two independent groups",
-          quick=300, thorough=3000, shards=8, quick_shards=2),
+          quick=300, thorough=3000, shards=8, quick_shards=4),
 ]
